@@ -220,6 +220,18 @@ CORE = [
        'attrs': {'db_index': True}},
       {'op': 'change_field', 'app': 'app1', 'model': 'A', 'name': 'c',
        'attrs': {'db_index': True}}]),
+    # a functional index is kept while other Meta.indexes come and go (the
+    # evolution spells its expressions as a tuple, as a hint does / as a list)
+    ({'indexes': [{'lower': 'c', 'fields': [], 'name': 'ix_lower_c'},
+                  {'fields': ['a'], 'name': 'ix_a'}]},
+     [{'op': 'change_meta', 'app': 'app1', 'model': 'A', 'prop': 'indexes',
+       'value': [{'lower': 'c', 'fields': [], 'name': 'ix_lower_c'},
+                 {'fields': ['b'], 'name': 'ix_b'}]}]),
+    ({'indexes': [{'lower': 'c', 'fields': [], 'name': 'ix_lower_c'}]},
+     [{'op': 'change_meta', 'app': 'app1', 'model': 'A', 'prop': 'indexes',
+       'value': [{'lower': 'c', 'fields': [], 'name': 'ix_lower_c',
+                  'as_list': True},
+                 {'fields': ['b', 'a'], 'name': 'ix_ba'}]}]),
     # a model owning several many-to-many tables is deleted
     ({'__two_m2m__': True},
      [{'op': 'delete_model', 'app': 'app1', 'model': 'A'}]),
